@@ -211,8 +211,14 @@ def report(rep, label="P"):
                 key = KNOWN_KEYS.get((cls, cond, attr)) or f"C19:{cls}.{name}:{attr}"
                 groups.setdefault(key, []).append(item)
             for key, items in groups.items():
-                rep.violation(key, what_of(items), replay={"obligation": full, "class": cls, "file": relpath, "effects": [list(map(str, i)) for i in items],
-                                                           "analysis": "vf/static/frames.py"}, obligation=full, no_input=True)
+                confirmed, info = None, None
+                try:
+                    confirmed, info = native_replay(cls, cond)
+                except Exception as ex:
+                    info = {"replay_error": repr(ex)[:200]}
+                rep.violation(key, what_of(items) + (f" - replayed natively: {info}" if confirmed else ""),
+                              replay={"obligation": full, "class": cls, "file": relpath, "effects": [list(map(str, i)) for i in items],
+                                      "analysis": "vf/static/frames.py", "native": info}, obligation=full, no_input=not confirmed)
         for m in fit_methods:
             if m not in ms:
                 continue
@@ -238,3 +244,39 @@ def report(rep, label="P"):
             f5 = sorted({(a, l) for a, l, _ in eff.writes})
             emit(f"{m}.F5_prediction_does_not_write_state", f5, "F5",
                  lambda items: f"{cls}.{m} assigns attribute(s) {sorted({i[0] for i in items})} (lines {sorted({i[1] for i in items})})")
+
+
+# ------------------------------------------------------------------------------------------------ native replays of failed frame obligations
+def _factories():
+    import numpy as np
+    from sklearn.linear_model import LogisticRegression
+    from fairlearn.postprocessing import ThresholdOptimizer
+    from fairlearn.preprocessing import CorrelationRemover
+    from fairlearn.reductions import DemographicParity, ExponentiatedGradient, GridSearch
+    rng = np.random.default_rng(0)
+    X = rng.normal(size=(40, 3))
+    y = (X[:, 0] + rng.normal(scale=0.5, size=40) > 0).astype(int)
+    a = rng.integers(0, 2, 40)
+    return {
+        "ExponentiatedGradient": (lambda: ExponentiatedGradient(LogisticRegression(), DemographicParity(), max_iter=5), lambda e: e.fit(X, y, sensitive_features=a)),
+        "GridSearch": (lambda: GridSearch(LogisticRegression(), DemographicParity(), grid_size=4), lambda e: e.fit(X, y, sensitive_features=a)),
+        "ThresholdOptimizer": (lambda: ThresholdOptimizer(estimator=LogisticRegression(), constraints="demographic_parity", predict_method="predict_proba"),
+                               lambda e: e.fit(X, y, sensitive_features=a)),
+        "CorrelationRemover": (lambda: CorrelationRemover(sensitive_feature_ids=[0]), lambda e: e.fit(X)),
+    }
+
+
+def native_replay(cls, cond):
+    """-> (confirmed: bool, info) for F1 (constructor parameters unchanged by fit) and F4 (fit returns the estimator)"""
+    fac = _factories().get(cls)
+    if fac is None or cond not in ("F1", "F4"):
+        return None, None
+    make, fit = fac
+    est = make()
+    before = {k: (id(v), repr(v)[:80]) for k, v in est.get_params(deep=False).items()}
+    out = fit(est)
+    if cond == "F4":
+        return out is not est, {"class": cls, "fit_returned": repr(out)[:80]}
+    after = {k: (id(v), repr(v)[:80]) for k, v in est.get_params(deep=False).items()}
+    changed = {k: (before[k][1], after[k][1]) for k in before if before[k] != after[k]}
+    return bool(changed), {"class": cls, "changed_constructor_parameters": changed}
